@@ -7,9 +7,10 @@
   the segment crosses, at which relative position `t` of the grid side and at which parameter `s` of
   the segment, in the order from the first to the second end point — over `Rat` (exact `/`, `floor`),
   with the `T::epsilon()` bands of the diagonal case as a parameter `eps`.
-  The rest of the pipeline (`HashMap`-ordered dart numbering of the inserted darts, edge insertion, clip)
-  is validated end-to-end by the exact oracle of `tools/props/c16.py` on the real implementation
-  (DESIGN.md §7 C16).
+  Step 2 (`group_intersections_per_edge`, `compute_intersection_ids`) as pure functions of the slot vector, β2 and the
+  iteration order of the `HashMap`; step 3 on a map: `Model/GrisubalInsert.lean`; clip: `Model/Clip.lean`.
+  Steps 4-5 (edge data, edge insertion, boundary marking) are validated end-to-end by the exact oracle of
+  `tools/props/c16.py` on the real implementation (DESIGN.md §7 C16).
 
   Import-free (core only).
 -/
@@ -226,20 +227,21 @@ def slotsOf (g : GGrid) (eps : Rat) (va vb : Pt) : List Slot :=
 /-- `cmap.edge_id(d)` of a 2-map: the smaller dart of the edge -/
 def edgeOf (b2 : Nat → Nat) (d : Nat) : Nat := if b2 d ≠ 0 ∧ b2 d < d then b2 d else d
 
-/-- `(idx, t, dart_id)`: rank among the non-NaN slots, position relative to the edge's identifier dart,
-    the dart that was hit -/
+/-- `(idx, t, dart_id)`: slot number, position relative to the edge's identifier dart, the dart that was hit -/
 structure Hit where
   idx : Nat
   t : Rat
   dart : Nat
 deriving DecidableEq, Repr
 
-/-- `.into_iter().filter(|(_, t)| !t.is_nan()).enumerate()` with the side adjustment `t = 1 - t` — the
-    filter comes BEFORE `enumerate`: `idx` is the rank among the written slots, not the slot number -/
+/-- `.into_iter().enumerate().filter(|(_, (_, t))| !t.is_nan())` with the side adjustment `t = 1 - t`: `idx` is the
+    SLOT number (the identifier of `GeometryVertex::Intersec(idx)`); unwritten slots contribute nothing
+    (/repo 2e893a8; before that commit the filter came first and `idx` was the rank among the written slots:
+    finding D16c, fixed) -/
 def hitsOf (b2 : Nat → Nat) (slots : List Slot) : List (Nat × Hit) :=
-  ((slots.filterMap id).zipIdx).map fun x =>
-    let e := edgeOf b2 x.1.1
-    (e, { idx := x.2, t := if e ≠ x.1.1 then 1 - x.1.2 else x.1.2, dart := x.1.1 })
+  slots.zipIdx.filterMap fun x =>
+    x.1.map fun dt =>
+      (edgeOf b2 dt.1, { idx := x.2, t := if edgeOf b2 dt.1 ≠ dt.1 then 1 - dt.2 else dt.2, dart := dt.1 })
 
 /-- stable insertion by `t` (`sort_by` is a stable sort) -/
 def insertHit (h : Hit) : List Hit → List Hit
